@@ -233,7 +233,7 @@ func (c19) Run(c core.Case, w *core.Worker) core.Result {
 					got = outScore(sc, e)
 					wantS = "absent"
 					if zs, ok := o.zset[f]; ok {
-						wantS = fmt.Sprintf("score:%v", zs)
+						wantS = fmtScore(zs)
 					}
 					logl = append(logl, fmt.Sprintf("readback ZScore(%s,%s)", k, f))
 				default:
@@ -501,7 +501,7 @@ func (c19) Run(c core.Case, w *core.Worker) core.Result {
 					want = "wrong-type"
 				} else if o != nil {
 					if zs, ok := o.zset[e]; ok {
-						want = fmt.Sprintf("score:%v", zs)
+						want = fmtScore(zs)
 					}
 				}
 				cmp("ZScore", outScore(sc, err), want)
@@ -621,5 +621,15 @@ func outScore(s float64, err error) string {
 	case s == -1:
 		return "absent"
 	}
-	return fmt.Sprintf("score:%v", s)
+	return fmtScore(s)
+}
+
+// fmtScore renders a score for comparison: scores are compared as numbers, so the two zeros
+// are one value (ZAdd(-0) followed by ZAdd(0) is "score unchanged" for the engine and leaves
+// -0 stored, which is equal to the 0 the caller asked for); NaN is rendered as itself.
+func fmtScore(x float64) string {
+	if x == 0 {
+		x = 0
+	}
+	return fmt.Sprintf("score:%v", x)
 }
